@@ -46,7 +46,7 @@ var props = map[string]Prop{
 			{Name: "exhaustive", Test: "TestC15Exhaustive", Shards: [2]int{4, 16}, Timeout: [2]time.Duration{5 * min, 30 * min}},
 			{Name: "random", Test: "TestC15Random", Shards: [2]int{2, 16}, Checks: [2]int{8000, 100000}, SeedOffset: 1, Timeout: [2]time.Duration{5 * min, 20 * min}},
 		},
-		Rule: "exhaustive: every string of length <= 4 (quick) / <= 5 (thorough) over the 27-symbol alphabet and over the complementary 26-symbol alphabet (the first contains ';', all three quotes, '/', '!', newline); random: rapid-generated concatenations of statement fragments, semicolons, unterminated tokens and look-ahead lexemes. Oracle: join(pieces, ';') == source; #pieces == #semicolon tokens + 1; each piece is the text between consecutive semicolon tokens; Scan(piece) has no semicolon token and equals the context tokens shifted by the piece offset; Parse(source) succeeds iff every non-empty piece parses, and then statement k equals Parse(piece k) up to the span shift. Non-trivial = at least one semicolon token and (a semicolon byte that is not a token, or a semicolon directly after a look-ahead character); distinct = distinct strings.",
+		Rule:        "exhaustive: every string of length <= 4 (quick) / <= 5 (thorough) over the 27-symbol alphabet and over the complementary 26-symbol alphabet (the first contains ';', all three quotes, '/', '!', newline); random: rapid-generated concatenations of statement fragments, semicolons, unterminated tokens and look-ahead lexemes. Oracle: join(pieces, ';') == source; #pieces == #semicolon tokens + 1; each piece is the text between consecutive semicolon tokens; Scan(piece) has no semicolon token and equals the context tokens shifted by the piece offset; Parse(source) succeeds iff every non-empty piece parses, and then statement k equals Parse(piece k) up to the span shift. Non-trivial = at least one semicolon token and (a semicolon byte that is not a token, or a semicolon directly after a look-ahead character); distinct = distinct strings.",
 		Assumptions: []string{"reflective structural comparison over the exported AST fields defines 'the same statement'"},
 	},
 	"C07": {
@@ -71,7 +71,7 @@ var props = map[string]Prop{
 			{Name: "dictionary", Test: "TestC08Dictionary", Shards: [2]int{4, 16}, Timeout: [2]time.Duration{5 * min, 30 * min}},
 			{Name: "fuzz", Fuzz: "FuzzC08Accept", Shards: [2]int{0, 1}, FuzzTime: [2]time.Duration{0, 4 * min}},
 		},
-		Rule: "soups: every sequence of <= 6 tokens over an 8-symbol alphabet and <= 4 over a 15-symbol one (thorough: <= 6 over 15 symbols) spliced into eight expression/operator contexts, every sequence of <= 3 (4) tokens over 21 operator-level symbols in 13 operator contexts and every sequence of <= 7 (8) tokens over 7 bracket-level symbols, each visited once (an accepted soup counts as non-trivial); dictionary: every short word that occurs as a string literal in the parser's or compiler's source (read from the tree under test at run time) followed by every sequence of <= 4 (5) option-like tokens in 13 contexts; mutants: rapid-generated grammar programs (all operators, lets, nested joins, hostile names) printed in a random layout and corrupted by 1-3 token-level edits (delete, insert incl. error lexemes, duplicate, transpose, truncate, replace, append) or byte-level splices of hostile constants; thorough adds a coverage-guided native fuzz campaign seeded with the goldens. Oracle, whenever Parse returns nil error: Scan holds no error token, and the token sequence re-printed from the tree through exported fields equals Scan's (kind, value) sequence except for a comma directly before the ')' closing a call, a comma directly before summarize's `by`, and empty statements. Non-trivial = an accepted mutant (Parse succeeded on a corrupted program) or an input that uses an allowed absence; distinct = distinct sources.",
+		Rule:        "soups: every sequence of <= 6 tokens over an 8-symbol alphabet and <= 4 over a 15-symbol one (thorough: <= 6 over 15 symbols) spliced into eight expression/operator contexts, every sequence of <= 3 (4) tokens over 21 operator-level symbols in 13 operator contexts and every sequence of <= 7 (8) tokens over 7 bracket-level symbols, each visited once (an accepted soup counts as non-trivial); dictionary: every short word that occurs as a string literal in the parser's or compiler's source (read from the tree under test at run time) followed by every sequence of <= 4 (5) option-like tokens in 13 contexts; mutants: rapid-generated grammar programs (all operators, lets, nested joins, hostile names) printed in a random layout and corrupted by 1-3 token-level edits (delete, insert incl. error lexemes, duplicate, transpose, truncate, replace, append) or byte-level splices of hostile constants; thorough adds a coverage-guided native fuzz campaign seeded with the goldens. Oracle, whenever Parse returns nil error: Scan holds no error token, and the token sequence re-printed from the tree through exported fields equals Scan's (kind, value) sequence except for a comma directly before the ')' closing a call, a comma directly before summarize's `by`, and empty statements. Non-trivial = an accepted mutant (Parse succeeded on a corrupted program) or an input that uses an allowed absence; distinct = distinct sources.",
 		Assumptions: []string{"the re-printer (harness/astx/reprint.go) prints optional parts iff their span is valid or their node is non-nil; keyword synonyms are accepted as sets"},
 	},
 	"C10": {
@@ -107,7 +107,7 @@ var props = map[string]Prop{
 			{Name: "huge", Test: "TestC11Huge", Shards: [2]int{6, 12}, SeedOffset: 3, Timeout: [2]time.Duration{10 * min, 40 * min}},
 			{Name: "large", Test: "TestC11Large", Shards: [2]int{2, 8}, Checks: [2]int{40, 300}, SeedOffset: 2, Timeout: [2]time.Duration{5 * min, 40 * min}},
 		},
-		Rule: "programs: rapid-generated grammar programs covering every node type in every child position (parenthesised expressions, unnamed extend/summarize columns, project with/without expression, render with/without properties, nested and chained joins, lets), one in five corrupted by token edits and kept if it still parses; two pruning draws each; soups: every short token sequence (same alphabets/contexts as C08) that parses. Oracle: reflection over exported fields enumerates the node graph; parser.Walk under recover must not panic, never pass a nil node, visit every *Ident and every Expr node (except CallExpr.Func and JoinOperator.Flavor) exactly once by pointer identity, visit nothing twice and nothing outside the tree, visit ancestors first; with a rapid-drawn set of visits answering false the visited set is exactly the full set minus strict descendants of those nodes; the same laws for Walk started at every expression subtree (the compiler's usage). Non-trivial = tree with >= 10 nodes and at least one of {ParenExpr, unnamed extend/summarize column, render property, join, project column without expression, let}; distinct = program shape x pruning draw.",
+		Rule:        "programs: rapid-generated grammar programs covering every node type in every child position (parenthesised expressions, unnamed extend/summarize columns, project with/without expression, render with/without properties, nested and chained joins, lets), one in five corrupted by token edits and kept if it still parses; two pruning draws each; soups: every short token sequence (same alphabets/contexts as C08) that parses. Oracle: reflection over exported fields enumerates the node graph; parser.Walk under recover must not panic, never pass a nil node, visit every *Ident and every Expr node (except CallExpr.Func and JoinOperator.Flavor) exactly once by pointer identity, visit nothing twice and nothing outside the tree, visit ancestors first; with a rapid-drawn set of visits answering false the visited set is exactly the full set minus strict descendants of those nodes; the same laws for Walk started at every expression subtree (the compiler's usage). Non-trivial = tree with >= 10 nodes and at least one of {ParenExpr, unnamed extend/summarize column, render property, join, project column without expression, let}; distinct = program shape x pruning draw.",
 		Assumptions: []string{"the set of nodes is what is reachable through exported fields of pointer/interface/slice type implementing parser.Node"},
 	},
 	"C02": {
